@@ -191,6 +191,9 @@ def run(tier, seed):
                     ({"k": "part", "v": [["k1", {"k": "nd", "v": [2.5] * 80, "dtype": "float64", "shape": [80]}]]}, "fs_cache", "normal"),
                     ({"k": "str", "v": "z" * 2000}, "fs_tinycache", "normal"),
                     ({"k": "npscalar", "v": 3.5, "dtype": "float64"}, "fs", "normal"),
+                    ({"k": "tsz", "v": "2021-03-04T05:06:07", "zone": "Europe/Paris"}, "fs", "normal"),
+                    ({"k": "pdtsz", "v": "2021-03-04T05:06:07", "zone": "America/New_York"}, "fs", "normal"),
+                    ({"k": "list", "v": [{"k": "tsz", "v": "2021-07-04T05:06:07", "zone": "Asia/Tokyo"}, {"k": "int", "v": 1}]}, "fs_cache", "normal"),
                     ({"k": "pdts", "v": "2021-03-04T05:06:07"}, "fs", "normal"),
                     ({"k": "pdts", "v": "2021-03-04T05:06:07+02:00"}, "mem", "normal"),
                     ({"k": "part", "v": [["k1", {"k": "pdts", "v": "2020-01-02T03:04:05"}]]}, "fs_cache", "normal"),
